@@ -131,6 +131,9 @@ func checkC01(c *Ctx) {
 			continue
 		}
 		src, prog := sc.Src, sc.Prog
+		if sc.Group == "interaction" && reOutsideSem.MatchString(src) {
+			continue // quote / unquote / macro: not part of the reference evaluator (C13's subject); these programs serve C04/C05/C07
+		}
 		if src == "" {
 			src = renderProgram(prog)
 		}
@@ -206,6 +209,8 @@ func checkC01(c *Ctx) {
 
 // a call to an extension function or to a grol-defined function of the root environment
 var reLibCall = regexp.MustCompile(`\b(sqrt|floor|ceil|trunc|round|runes|rune_len|split|join|trim|trim_left|trim_right|min|max|int|abs|keys|type|sprintf|printf|str|json|eval|format)\(`)
+
+var reOutsideSem = regexp.MustCompile(`\b(quote|unquote|macro)\(`)
 
 func replayC01(rp map[string]any) (bool, string) {
 	src, _ := rp["src"].(string)
